@@ -2847,7 +2847,7 @@ Q(name="e2_first_packet_close_gets_drain_timer", props=["C08"], func=r"connectio
 
 
 # ------------------------------------------------------------------ C09: a CID that Endpoint::connect put into the routing table belongs to a connection afterwards - or is taken out again
-def cn_post(c, p):
+def ecn_post(c, p):
     st = p.p.state
     if p.p.outcome != "return":
         return "true"
@@ -2867,7 +2867,7 @@ def cn_post(c, p):
 
 Q(name="e2_endpoint_connect_cid_leak", props=["C09"], func=r"endpoint\.rs[^>]*>::connect$",
   allowed_panics=r".", ignore_untranslatable=r".",
-  functions=["Endpoint::connect"], pre=lambda c: "true", post=cn_post,
+  functions=["Endpoint::connect"], pre=lambda c: "true", post=ecn_post,
   bounds="every way out of Endpoint::connect after a local CID was generated (new_cid routes it to the handle the connection WOULD get): the CID is either handed to add_connection as the new connection's CID or retired from the routing table - in particular when the TLS session cannot be started (invalid server name); otherwise it would route datagrams to whichever connection is given that handle next; callees opaque",
   replay=("endpoint_connect_failure_native", lambda m: [dict(x=0)]))
 
